@@ -752,6 +752,10 @@ func goCode(root string, unit string) string {
 		header("Model.GoSem", "Model.GoJson", "Model.GoSlices", "Model.Pub", "Model.GoPub", "Generated.GoObject")
 		text, errs := translateListing(root)
 		emit("pub/actor.go, pub/post.go, pub/common.go (the listing filters: which entry is shown as itself, which as an error item)", text, errs)
+	case "newitem":
+		header("Model.GoSem", "Model.GoJson", "Model.GoSlices", "Model.Pub", "Model.GoPub", "Model.GoNewitem", "Generated.GoObject", "Generated.GoClient", "Generated.GoListing")
+		text, errs := translateNewitem(root)
+		emit("pub/post.go, pub/actor.go, pub/activity.go, pub/common.go (the constructors of the items and what they call)", text, errs)
 	case "gemtext":
 		header("Model.GoSem", "Model.GoText", "Model.GoStrings", "Model.Style", "Generated.GoAnsih", "Generated.GoStyle")
 		text, errs := translateGemtext(root)
